@@ -10,7 +10,10 @@ rm -rf $M; mkdir -p $M; cp -r /repo/src $M/src
 ( cd /tmp && PYTHONPATH=$M/src timeout 600 /venv/bin/python $d/demo.py > /tmp/seed$name.patched.log 2>&1 ); p=$?
 echo "DEMO $d clean=$c patched=$p"
 for chk in "$@"; do
+  # the evidence file of a run against a patched copy must not replace the one of the last run against /repo
+  cp /verif/evidence/$chk.json /tmp/seed$name.$chk.evidence.bak 2>/dev/null
   VERIF_REPO=$M timeout 2400 /verif/check $chk > /tmp/seed$name.$chk.log 2>&1; rc=$?
+  [ -f /tmp/seed$name.$chk.evidence.bak ] && mv /tmp/seed$name.$chk.evidence.bak /verif/evidence/$chk.json
   echo "SEEDED $d check $chk exit=$rc violations=$(grep -c '^VIOLATION' /tmp/seed$name.$chk.log): $(grep -A1 '^VIOLATION' /tmp/seed$name.$chk.log | grep clause= | head -3 | cut -c1-170 | tr '\n' '|')"
 done
 rm -rf $M
